@@ -95,6 +95,19 @@ def _alt_payload(r: Rec):
     return None
 
 
+def _high_bit_variants(base: str, val: int):
+    if base == "bool":
+        if val:
+            yield "bool-nonzero", 2
+            yield "bool-nonzero", 1 << 32
+        return
+    if val >= 1 << 32:
+        yield "no-sign-extension", val & 0xFFFFFFFF
+    else:
+        yield "high-bits-set", val | (1 << 32)
+        yield "high-bits-set", val | (0x7FFFFFFF << 33)
+
+
 def rewrites_once(schema: Schema, m: Optional[Msg], recs: List[Rec], max_full: int,
                   depth: int = 0) -> Iterator[Tuple[str, List[Rec]]]:
     """All single-operator rewrites of a record list for message type ``m``."""
@@ -156,6 +169,23 @@ def rewrites_once(schema: Schema, m: Optional[Msg], recs: List[Rec], max_full: i
             for pad in sorted({vl + 1, vl + 2, 10}):
                 if vl < pad <= 10:
                     yield "pad-value", recs[:i] + [wire.make_rec(r.number, r.wt, r.payload, val_pad=pad)] + recs[i + 1:]
+    # 3b. 32-bit varint kinds carried in a 64-bit varint: decoders truncate to 32 bits, so a
+    #     negative int32 / enum without its sign extension (5 bytes instead of 10) and a value with
+    #     arbitrary bits above bit 31 denote the same field value (the reference decides)
+    for i, r in enumerate(recs):
+        f = fields.get(r.number)
+        if f is None or f.card == "map" or f.base not in ("int32", "uint32", "sint32", "enum", "bool"):
+            continue
+        if r.wt == wire.VARINT:
+            for lab, alt in _high_bit_variants(f.base, r.payload):
+                yield lab, recs[:i] + [wire.make_rec(r.number, wire.VARINT, alt)] + recs[i + 1:]
+        elif r.wt == wire.LEN and f.card == "repeated":
+            chunks = split_packed(f.kind, r.payload)
+            for j, c in enumerate(chunks):
+                val, _ = wire.dec_varint(c, 0)
+                for lab, alt in _high_bit_variants(f.base, val):
+                    padded = chunks[:j] + [wire.enc_varint(alt)] + chunks[j + 1:]
+                    yield lab + "-packed", recs[:i] + [wire.make_rec(r.number, wire.LEN, b"".join(padded))] + recs[i + 1:]
     # 4. duplicated singular scalar with a different earlier value (last wins)
     for i, r in enumerate(recs):
         f = fields.get(r.number)
